@@ -104,3 +104,145 @@ theorem exportStack_spec {a : Arena V} {t : T (Ent V)} (h : Rep a a.root EMPTY t
     simp [Arena.exportLoop]
 
 end ITree
+
+/-! ### the stack stays as shallow as the tree -/
+namespace ITree
+variable {V : Type}
+
+/-- the loop of `Arena.exportLoop` that also records the greatest stack length it has seen -/
+def Arena.exportLoopD : Nat → Arena V → List StackNode → List V → Nat → Option (List V × Nat)
+  | 0, _, _, _, _ => none
+  | _+1, _, [], acc, d => some (acc.reverse, d)
+  | fuel+1, a, s :: rest, acc, d =>
+    let d := max d (rest.length + 1)
+    if s.left != EMPTY then do
+      let c ← a.stackNode s.left
+      Arena.exportLoopD fuel a (c :: { s with left := EMPTY } :: rest) acc d
+    else do
+      let (acc, s) ← if s.index != EMPTY then (a.node s.index).map fun n => (n.ent.val :: acc, { s with index := EMPTY })
+                     else some (acc, s)
+      if s.right != EMPTY then do
+        let c ← a.stackNode s.right
+        Arena.exportLoopD fuel a (c :: { s with right := EMPTY } :: rest) acc d
+      else
+        Arena.exportLoopD fuel a rest acc d
+
+/-- forgetting the depth gives the loop itself -/
+theorem exportLoopD_erase : ∀ (fuel : Nat) (a : Arena V) (st : List StackNode) (acc : List V) (d : Nat),
+    (Arena.exportLoopD fuel a st acc d).map (·.1) = Arena.exportLoop fuel a st acc := by
+  intro fuel
+  induction fuel with
+  | zero => intro a st acc d; rfl
+  | succ fuel ih =>
+    intro a st acc d
+    cases st with
+    | nil => rfl
+    | cons s rest =>
+      simp only [Arena.exportLoopD, Arena.exportLoop]
+      by_cases hl : (s.left != EMPTY) = true
+      · simp only [hl, if_true, Option.bind_eq_bind]
+        cases a.stackNode s.left with
+        | none => rfl
+        | some c => simp only [Option.bind_some]; exact ih _ _ _ _
+      · simp only [hl, Bool.false_eq_true, if_false, Option.bind_eq_bind]
+        by_cases hi : (s.index != EMPTY) = true
+        · simp only [hi, if_true]
+          cases a.node s.index with
+          | none => rfl
+          | some n =>
+            simp only [Option.map_some, Option.bind_some]
+            by_cases hr : (s.right != EMPTY) = true
+            · simp only [hr, if_true]
+              cases a.stackNode s.right with
+              | none => rfl
+              | some c => simp only [Option.bind_some]; exact ih _ _ _ _
+            · simp only [hr, Bool.false_eq_true, if_false]; exact ih _ _ _ _
+        · simp only [hi, Bool.false_eq_true, if_false, Option.bind_some]
+          by_cases hr : (s.right != EMPTY) = true
+          · simp only [hr, if_true]
+            cases a.stackNode s.right with
+            | none => rfl
+            | some c => simp only [Option.bind_some]; exact ih _ _ _ _
+          · simp only [hr, Bool.false_eq_true, if_false]; exact ih _ _ _ _
+
+end ITree
+
+namespace ITree
+variable {V : Type}
+
+/-- a frame for the root of `t`, on top of `rest`, is worked off with the stack never longer than
+`rest.length + height t` -/
+theorem exportLoopD_subtree {a : Arena V} (hsize : a.nodes.size ≤ EMPTY) : ∀ (t : T (Ent V)) (i p : Nat), Rep a i p t → t ≠ .leaf →
+    ∃ k, k ≤ 3 * t.size ∧ ∀ (n : ANode V), a.node i = some n → ∀ (fuel : Nat) (rest : List StackNode) (acc : List V) (d : Nat),
+      Arena.exportLoopD (fuel + k) a (⟨i, n.left, n.right⟩ :: rest) acc d =
+        Arena.exportLoopD fuel a rest ((valsOf t).reverse ++ acc) (max d (rest.length + t.height)) := by
+  intro t
+  induction t with
+  | leaf => intro i p _ h; exact absurd rfl h
+  | node c l s e r ihl ihr =>
+    intro i p hr _
+    obtain ⟨rfl, n0, hn0, _, _, hne, hl, hrr⟩ := hr
+    have hlt := node_lt hn0
+    have hiE : (i != EMPTY) = true := by simp; unfold EMPTY at hsize ⊢; omega
+    have after : ∃ k2, k2 ≤ 2 + 3 * r.size ∧ ∀ (fuel : Nat) (rest : List StackNode) (acc : List V) (d : Nat),
+        Arena.exportLoopD (fuel + k2) a (⟨i, EMPTY, n0.right⟩ :: rest) acc d =
+          Arena.exportLoopD fuel a rest ((valsOf r).reverse ++ e.val :: acc) (max d (rest.length + 1 + r.height)) := by
+      cases r with
+      | leaf =>
+        have hre : n0.right = EMPTY := hrr
+        refine ⟨1, by simp [T.size], ?_⟩
+        intro fuel rest acc d
+        simp [Arena.exportLoopD, hiE, hn0, hne, hre, valsOf_leaf, T.height]
+      | node cr lr sr er rr =>
+        obtain ⟨kr, hkr, hr2⟩ := ihr n0.right i hrr (by simp)
+        obtain ⟨hsr, nr, hnr, _⟩ := hrr
+        have hrE : (n0.right != EMPTY) = true := by
+          have := node_lt hnr; rw [← hsr] at this; simp; unfold EMPTY at hsize ⊢; omega
+        have hrE' : n0.right ≠ EMPTY := by simpa using hrE
+        have hnr' : a.node n0.right = some nr := by rw [hsr]; exact hnr
+        refine ⟨kr + 2, by simp only [T.size_node] at hkr ⊢; omega, ?_⟩
+        intro fuel rest acc d
+        have step1 : Arena.exportLoopD (fuel + (kr + 2)) a (⟨i, EMPTY, n0.right⟩ :: rest) acc d =
+            Arena.exportLoopD (fuel + 1 + kr) a (⟨n0.right, nr.left, nr.right⟩ :: ⟨EMPTY, EMPTY, EMPTY⟩ :: rest) (e.val :: acc)
+              (max d (rest.length + 1)) := by
+          have : fuel + (kr + 2) = (fuel + 1 + kr) + 1 := by omega
+          rw [this]
+          simp [Arena.exportLoopD, hiE, hn0, hne, hrE', Arena.stackNode, hnr']
+        rw [step1, hr2 nr hnr' (fuel + 1) _ _ _]
+        simp only [Arena.exportLoopD, List.length_cons, bne_self_eq_false, Bool.false_eq_true, if_false, Option.bind_eq_bind,
+          Option.bind_some]
+        congr 1
+        omega
+    obtain ⟨k2, hk2, h2⟩ := after
+    cases l with
+    | leaf =>
+      have hle : n0.left = EMPTY := hl
+      refine ⟨k2, by simp only [T.size_node, T.size]; omega, ?_⟩
+      intro n hn fuel rest acc d
+      rw [hn0] at hn; cases hn
+      rw [hle, h2 fuel rest acc d]
+      simp only [valsOf_node, valsOf_leaf, List.nil_append, List.reverse_cons, List.append_assoc, List.singleton_append, T.height]
+      congr 1
+      omega
+    | node cl ll sl el rl =>
+      obtain ⟨kl, hkl, hl2⟩ := ihl n0.left i hl (by simp)
+      obtain ⟨hsl, nl, hnl, _⟩ := hl
+      have hlE : (n0.left != EMPTY) = true := by
+        have := node_lt hnl; rw [← hsl] at this; simp; unfold EMPTY at hsize ⊢; omega
+      have hnl' : a.node n0.left = some nl := by rw [hsl]; exact hnl
+      refine ⟨kl + 1 + k2, by simp only [T.size_node] at hkl hk2 ⊢; omega, ?_⟩
+      intro n hn fuel rest acc d
+      rw [hn0] at hn; cases hn
+      have step1 : Arena.exportLoopD (fuel + (kl + 1 + k2)) a (⟨i, n0.left, n0.right⟩ :: rest) acc d =
+          Arena.exportLoopD (fuel + k2 + kl) a (⟨n0.left, nl.left, nl.right⟩ :: ⟨i, EMPTY, n0.right⟩ :: rest) acc
+            (max d (rest.length + 1)) := by
+        have : fuel + (kl + 1 + k2) = (fuel + k2 + kl) + 1 := by omega
+        rw [this]
+        simp [Arena.exportLoopD, hlE, Arena.stackNode, hnl']
+      rw [step1, hl2 nl hnl' (fuel + k2) _ _ _, h2 fuel rest _ _]
+      simp only [valsOf_node, List.reverse_append, List.reverse_cons, List.append_assoc, List.singleton_append, List.length_cons, T.height]
+      congr 1
+      · simp
+      · omega
+
+end ITree
